@@ -2,7 +2,7 @@
 # usage: tools/keep_mutant.sh <worktree-id> <seeded-name>
 # Confirms a sub-agent's mutant in its scratch worktree (patch applies to a clean checkout, demo fails with / passes without,
 # test suite passes with it), stores it under /verif/seeded/<name>/ and removes the worktree.
-ID=$1; NAME=$2; WT=/tmp/wt/$ID
+ID=$1; NAME=$2; WT=${3:-/tmp/wt/$ID}; mkdir -p /tmp/wt
 [ -f $WT/patch.diff ] || { echo "no patch in $WT"; exit 2; }
 mkdir -p /verif/seeded/$NAME
 cp $WT/patch.diff $WT/demo.py $WT/meta.json /verif/seeded/$NAME/ 2>/dev/null
@@ -10,8 +10,8 @@ cd $WT && git checkout -q -- . && git clean -fdq -e patch.diff -e demo.py -e met
 PYTHONPATH=$WT timeout 120 /venv/bin/python demo.py >/dev/null 2>&1; BASE=$?
 git apply /verif/seeded/$NAME/patch.diff || { echo "patch does not apply"; exit 3; }
 PYTHONPATH=$WT timeout 120 /venv/bin/python demo.py >/dev/null 2>&1; MUT=$?
-PYTHONPATH=$WT timeout 900 /venv/bin/python -m pytest -q -p no:cacheprovider --timeout=900 --ignore=tests/types -x -q >/tmp/wt/$ID.tests 2>&1; T=$?
-echo "$NAME: demo without=$BASE with=$MUT tests_rc=$T $(tail -1 /tmp/wt/$ID.tests)"
+PYTHONPATH=$WT timeout 900 /venv/bin/python -m pytest -q -p no:cacheprovider --timeout=900 --ignore=tests/types -x -q >/tmp/wt/$NAME.tests 2>&1; T=$?
+echo "$NAME: demo without=$BASE with=$MUT tests_rc=$T $(tail -1 /tmp/wt/$NAME.tests)"
 /venv/bin/python - "$NAME" "$BASE" "$MUT" "$T" <<'PY'
 import json,sys
 n,b,m,t=sys.argv[1:]
